@@ -24,7 +24,9 @@ RULE = ("random operation sequences (length <= 8, thorough <= 12) over "
         "on 8^3 isotropic and VTI problems, gridding 'same' and 'single' "
         "(fully specified gridding_opts), in memory and file_dir, 40 % with a "
         "relaxed tol_gradient (1e-4/1e-5 vs tol 1e-9); up to three "
-        "live objects (original, copies, reloads) driven independently; "
+        "live objects (original, copies, reloads) driven independently; the "
+        "first two sequences of a batch start with one of four scripted "
+        "histories; "
         "distinct = operation bigrams (previous op, op) followed by an "
         "observation that reached the fresh-simulation oracle")
 ASSUMPTIONS = [
@@ -199,6 +201,12 @@ def run_sequence(rec, seed, k, i, maxlen):
         src_kinds=['TxElectricDipole', 'TxElectricPoint'])
     obs = simgen.observed_from(ps, r, tol=1e-8)
     gridding = gen.choice(r, ['same', 'same', 'single'])
+    # the first two sequences of every batch start with a scripted history
+    # (replace model or data, clean('computed') only, then observe) on the
+    # gridding it is most delicate for; random operations follow
+    script = []
+    if i < 2:
+        gridding, script = SCRIPTS[(2*k + i) % len(SCRIPTS)]
     file_based = bool(r.random() < 0.2)
     # a relaxed gradient tolerance, as the documentation suggests
     tolg = float(gen.choice(r, [1e-4, 1e-5])) if r.random() < 0.4 else None
@@ -222,7 +230,11 @@ def run_sequence(rec, seed, k, i, maxlen):
         fdir = os.path.join(tmp, 'fd0') if file_based else None
         lives = [Live(env.new_sim(1, fdir), 1, fdir)]
         n = int(r.integers(3, maxlen+1))
-        for step in range(n):
+        for step, fop in enumerate(script):
+            if not do_op(env, lives, lives[0], step, force=fop):
+                return
+            rec.event('scripted_operations')
+        for step in range(len(script), max(n, len(script) + 1)):
             act = [L for L in lives if not L.retired]
             L = act[int(r.integers(len(act)))]
             if not do_op(env, lives, L, step):
@@ -241,6 +253,15 @@ def run_sequence(rec, seed, k, i, maxlen):
     _ = emg3d
 
 
+SCRIPTS = [
+    ('single', ['compute', 'model_update:computed', 'get_hfield', 'misfit',
+                'gradient']),
+    ('same', ['gradient', 'data_update:computed', 'misfit', 'gradient']),
+    ('single', ['gradient', 'model_update:computed', 'jvec', 'jtvec',
+                'data_update:computed', 'gradient']),
+    ('same', ['misfit', 'clean:computed', 'compute', 'copy:computed',
+              'model_update:computed', 'gradient']),
+]
 OPS = ['compute', 'misfit', 'gradient', 'jvec', 'jtvec', 'get_efield',
        'get_hfield', 'clean', 'clean', 'copy', 'dict', 'file', 'file',
        'model_update', 'data_update']
@@ -265,6 +286,9 @@ def do_op(env, lives, L, step, force=None):
     import emg3d
     r, rec = env.r, env.rec
     sim = L.sim
+    fwhat = None
+    if force and ':' in force:
+        force, fwhat = force.split(':', 1)
     op = force or gen.choice(r, OPS)
     what = None
     name = op
@@ -337,14 +361,14 @@ def do_op(env, lives, L, step, force=None):
                           f'simulation by {d:.3e} after {env.log}')
                 return False
         elif op == 'clean':
-            what = gen.choice(r, ['computed', 'keepresults', 'all'])
+            what = fwhat or gen.choice(r, ['computed', 'keepresults', 'all'])
             name = f'clean:{what}'
             sim.clean(what)
             writes = True
             if what in ('computed', 'all'):
                 L.jtvec_pending = None
         elif op == 'copy':
-            what = gen.choice(r, WHATS)
+            what = fwhat or gen.choice(r, WHATS)
             name = f'copy:{what}'
             new = sim.copy(what)
             add_live(env, lives, L, new, what)
@@ -366,7 +390,7 @@ def do_op(env, lives, L, step, force=None):
         elif op == 'data_update':
             # new observations written in place into the survey of this
             # object, then clean: results must be those of the new data
-            what = gen.choice(r, ['computed', 'all'])
+            what = fwhat or gen.choice(r, ['computed', 'all'])
             name = f'data_update+clean:{what}'
             L.dver += 1
             sim.survey.data.observed[...] = env.obs_v(L.dver)
@@ -374,7 +398,7 @@ def do_op(env, lives, L, step, force=None):
             writes = True
             L.jtvec_pending = None
         elif op == 'model_update':
-            what = gen.choice(r, ['computed', 'all'])
+            what = fwhat or gen.choice(r, ['computed', 'all'])
             name = f'model_update+clean:{what}'
             L.ver += 1
             _, model = env.model(L.ver)
@@ -464,4 +488,5 @@ def finalize(merged, tier):
     common.require_events(merged, {'operations': 500,
                                    'misfit_observations': 100,
                                    'gradient_observations': 100,
-                                   'synthetic_observations': 500})
+                                   'synthetic_observations': 500,
+                                   'scripted_operations': 60})
